@@ -15,15 +15,17 @@ import (
 	"github.com/kubewharf/kubegateway/pkg/syncqueue"
 )
 
-// VerifC10NewController returns a controller whose lister reads the given indexer.
-func VerifC10NewController(indexer cache.Indexer) *UpstreamClusterController {
+// VerifC10NewController returns a controller whose lister reads the given indexer and whose embedded
+// clusters.Manager is mgr (the harness hands in clusters.NewManager() behind a recording wrapper, so that it can
+// look at the manager after every single write the handler performs).
+func VerifC10NewController(indexer cache.Indexer, mgr clusters.Manager) *UpstreamClusterController {
 	ctx, cancel := context.WithCancel(context.Background())
 	return &UpstreamClusterController{
 		ctx:     ctx,
 		cancel:  cancel,
 		lister:  proxylisters.NewUpstreamClusterLister(indexer),
 		synced:  func() bool { return true },
-		Manager: clusters.NewManager(),
+		Manager: mgr,
 	}
 }
 
